@@ -114,6 +114,16 @@ func init() {
 			{Name: "transit hop drops the flags of relayed data frames", ExpectRule: "C18.R7", ExpectKey: "handleStreamData", Edits: []Edit{
 				{File: agt, Old: "\t\t\tStreamID: upRelay.DownstreamID,\n\t\t\tFlags:    frame.Flags,\n", New: "\t\t\tStreamID: upRelay.DownstreamID,\n"},
 			}},
+			{Name: "EOF produced by a helper that does not look at the buffer", ExpectRule: "C18.R2", ExpectKey: "eofNow", Edits: []Edit{
+				{File: mgr, Old: "\t\t// Remote half-closed - drain buffered data then return EOF\n\t\tselect {\n\t\tcase data := <-s.readBuffer:\n\t\t\treturn data, nil\n\t\tdefault:\n\t\t\treturn nil, io.EOF\n\t\t}", New: "\t\treturn s.eofNow()"},
+				{File: mgr, Old: "// ReadWithTimeout reads with a timeout.", New: "func (s *Stream) eofNow() ([]byte, error) {\n\treturn nil, io.EOF\n}\n\n// ReadWithTimeout reads with a timeout."},
+			}},
+			{Name: "transition function maps the wrong source state on local half-close", ExpectRule: "C18.R4", ExpectKey: "CloseWrite", Edits: []Edit{
+				{File: mgr, Old: "\tstate := s.State()\n\tif state == StateOpen {\n\t\ts.SetState(StateHalfClosedLocal)\n\t} else if state == StateHalfClosedRemote {\n\t\t// Both sides closed\n\t\ts.SetState(StateClosed)\n\t}\n}", New: "\tif next, ok := afterLocalFin(s.State()); ok {\n\t\ts.SetState(next)\n\t}\n}\n\nfunc afterLocalFin(from StreamState) (StreamState, bool) {\n\tswitch from {\n\tcase StateOpen:\n\t\treturn StateHalfClosedLocal, true\n\tcase StateHalfClosedLocal:\n\t\treturn StateClosed, true\n\t}\n\treturn from, false\n}"},
+			}},
+			{Name: "meshConn.CloseWrite returns the send result without recording the half-close", ExpectRule: "C18.R3", ExpectKey: "CloseWrite", Edits: []Edit{
+				{File: agt, Old: "\tif err := c.agent.peerMgr.SendToPeer(c.peerID, frame); err != nil {\n\t\treturn err\n\t}\n\n\t// Update local stream state\n\tc.stream.CloseWrite()\n\treturn nil\n", New: "\tsendErr := c.agent.peerMgr.SendToPeer(c.peerID, frame)\n\tif sendErr != nil {\n\t\tc.stream.CloseWrite()\n\t}\n\treturn sendErr\n"},
+			}},
 			// behaviour-preserving rewrites
 			{Name: "rewrite: CanWrite as a switch", Edits: []Edit{
 				{File: mgr, Old: "\tstate := s.State()\n\treturn state == StateOpen || state == StateHalfClosedRemote\n", New: "\tswitch s.State() {\n\tcase StateOpen, StateHalfClosedRemote:\n\t\treturn true\n\t}\n\treturn false\n"},
@@ -144,6 +154,23 @@ func init() {
 			}},
 			{Name: "rewrite: relay pop with one variable and side-correct checks", Edits: []Edit{
 				{File: rlt, Old: "\tif up := r.byUpstream[streamID]; up != nil && up.UpstreamPeer == peer {\n\t\tdelete(r.byUpstream, up.UpstreamID)\n\t\tdelete(r.byDownstream, up.DownstreamID)\n\t\treturn up, true\n\t}\n\tif down := r.byDownstream[streamID]; down != nil && down.DownstreamPeer == peer {\n\t\tdelete(r.byUpstream, down.UpstreamID)\n\t\tdelete(r.byDownstream, down.DownstreamID)\n\t\treturn down, false\n\t}\n\treturn nil, false\n", New: "\tentry, fromUpstream = r.byUpstream[streamID], true\n\tif entry == nil || entry.UpstreamPeer != peer {\n\t\tentry, fromUpstream = r.byDownstream[streamID], false\n\t\tif entry == nil || entry.DownstreamPeer != peer {\n\t\t\treturn nil, false\n\t\t}\n\t}\n\tdelete(r.byUpstream, entry.UpstreamID)\n\tdelete(r.byDownstream, entry.DownstreamID)\n\treturn entry, fromUpstream\n"},
+			}},
+			{Name: "rewrite: Read drains through tryDequeue / dequeueOrEOF (EOF returned by a helper)", Edits: []Edit{
+				{File: mgr, Old: "\tcase <-s.closed:\n\t\t// Stream closed - drain any remaining buffered data first\n\t\tselect {\n\t\tcase data := <-s.readBuffer:\n\t\t\treturn data, nil\n\t\tdefault:\n\t\t\treturn nil, io.EOF\n\t\t}\n\tcase <-s.remoteFinCh:\n\t\t// Remote half-closed - drain buffered data then return EOF\n\t\tselect {\n\t\tcase data := <-s.readBuffer:\n\t\t\treturn data, nil\n\t\tdefault:\n\t\t\treturn nil, io.EOF\n\t\t}\n\tcase data := <-s.readBuffer:\n\t\treturn data, nil\n\t}\n}", New: "\tcase <-s.closed:\n\t\treturn s.dequeueOrEOF()\n\tcase <-s.remoteFinCh:\n\t\treturn s.dequeueOrEOF()\n\tcase chunk := <-s.readBuffer:\n\t\treturn chunk, nil\n\t}\n}\n\nfunc (s *Stream) tryDequeue() ([]byte, bool) {\n\tselect {\n\tcase chunk := <-s.readBuffer:\n\t\treturn chunk, true\n\tdefault:\n\t\treturn nil, false\n\t}\n}\n\nfunc (s *Stream) dequeueOrEOF() ([]byte, error) {\n\tif chunk, ok := s.tryDequeue(); ok {\n\t\treturn chunk, nil\n\t}\n\treturn nil, io.EOF\n}"},
+			}},
+			{Name: "rewrite: closed and remote-FIN cases share one drain-then-EOF select", Edits: []Edit{
+				{File: mgr, Old: "\tcase <-s.closed:\n\t\t// Stream closed - drain any remaining buffered data first\n\t\tselect {\n\t\tcase data := <-s.readBuffer:\n\t\t\treturn data, nil\n\t\tdefault:\n\t\t\treturn nil, io.EOF\n\t\t}\n\tcase <-s.remoteFinCh:\n\t\t// Remote half-closed - drain buffered data then return EOF\n\t\tselect {\n\t\tcase data := <-s.readBuffer:\n\t\t\treturn data, nil\n\t\tdefault:\n\t\t\treturn nil, io.EOF\n\t\t}\n\tcase data := <-s.readBuffer:\n\t\treturn data, nil\n\t}\n}", New: "\tcase fresh := <-s.readBuffer:\n\t\treturn fresh, nil\n\tcase <-s.closed:\n\tcase <-s.remoteFinCh:\n\t}\n\tselect {\n\tcase leftover := <-s.readBuffer:\n\t\treturn leftover, nil\n\tdefault:\n\t\treturn nil, io.EOF\n\t}\n}"},
+			}},
+			{Name: "rewrite: Close hands a method value to sync.Once", Edits: []Edit{
+				{File: mgr, Old: "\ts.closeOnce.Do(func() {\n\t\ts.mu.Lock()\n\t\ts.SetState(StateClosed)\n\t\ts.mu.Unlock()\n\t\tclose(s.closed)\n\t\t// Do not drain readBuffer: Read() consumes remaining data before\n\t\t// returning io.EOF. Draining here would race with concurrent readers.\n\t})\n\treturn nil\n}", New: "\ts.closeOnce.Do(s.shutdown)\n\treturn nil\n}\n\nfunc (s *Stream) shutdown() {\n\ts.mu.Lock()\n\ts.SetState(StateClosed)\n\ts.mu.Unlock()\n\tclose(s.closed)\n}"},
+			}},
+			{Name: "rewrite: local half-close through a pure transition function, explicit unlock", Edits: []Edit{
+				{File: mgr, Old: "\tstate := s.State()\n\tif state == StateOpen {\n\t\ts.SetState(StateHalfClosedLocal)\n\t} else if state == StateHalfClosedRemote {\n\t\t// Both sides closed\n\t\ts.SetState(StateClosed)\n\t}\n}", New: "\tif next, ok := afterLocalFin(s.State()); ok {\n\t\ts.SetState(next)\n\t}\n}\n\nfunc afterLocalFin(from StreamState) (to StreamState, ok bool) {\n\tswitch from {\n\tcase StateOpen:\n\t\treturn StateHalfClosedLocal, true\n\tcase StateHalfClosedRemote:\n\t\treturn StateClosed, true\n\tdefault:\n\t\treturn from, false\n\t}\n}"},
+			}},
+			{Name: "rewrite: meshConn.Read fetches through a helper, CloseWrite returns the send result", Edits: []Edit{
+				{File: agt, Old: "\tdata, err := c.stream.Read(ctx)\n", New: "\tdata, err := c.nextMessage(ctx)\n"},
+				{File: agt, Old: "// Write writes data to the mesh connection.\n", New: "func (c *meshConn) nextMessage(ctx context.Context) ([]byte, error) {\n\treturn c.stream.Read(ctx)\n}\n\n// Write writes data to the mesh connection.\n"},
+				{File: agt, Old: "\tif err := c.agent.peerMgr.SendToPeer(c.peerID, frame); err != nil {\n\t\treturn err\n\t}\n\n\t// Update local stream state\n\tc.stream.CloseWrite()\n\treturn nil\n", New: "\tsendErr := c.agent.peerMgr.SendToPeer(c.peerID, frame)\n\tif sendErr == nil {\n\t\tc.stream.CloseWrite()\n\t}\n\treturn sendErr\n"},
 			}},
 		},
 	})
@@ -249,8 +276,9 @@ func newC18Ctx(p *kit.Program, r *kit.Report) *c18Ctx {
 		}
 	})
 	// closed channel: closed by the function Close hands to sync.Once (or by Close itself)
+	// (reached through static calls, closures and method values such as closeOnce.Do(s.shutdown))
 	if cl := p.Func("internal/stream", "Stream", "Close"); cl != nil {
-		for _, f := range kit.WithClosures(cl) {
+		for f := range c18Reach(cl) {
 			for _, c := range kit.Calls(f) {
 				if kit.CalleeOf(c).Built == "close" {
 					if fld, _ := kit.LoadedField(c.Common().Args[0]); fld != nil {
@@ -268,6 +296,43 @@ func newC18Ctx(p *kit.Program, r *kit.Report) *c18Ctx {
 		return nil
 	}
 	return cx
+}
+
+// c18Reach returns the functions of package stream that fn can run: static callees, closures it
+// creates, and functions it takes as values (method values handed to sync.Once.Do and the like,
+// including their bound-method wrappers). fn is included.
+func c18Reach(fn *ssa.Function) map[*ssa.Function]bool {
+	out := map[*ssa.Function]bool{}
+	var rec func(f *ssa.Function)
+	rec = func(f *ssa.Function) {
+		if f == nil || out[f] || f.Blocks == nil {
+			return
+		}
+		if pp := kit.FuncPkgPath(f); pp != "" && pp != kit.PkgPath("internal/stream") {
+			return
+		}
+		out[f] = true
+		for _, a := range f.AnonFuncs {
+			rec(a)
+		}
+		kit.Instrs(f, func(in ssa.Instruction) {
+			for _, op := range in.Operands(nil) {
+				if op == nil || *op == nil {
+					continue
+				}
+				switch v := (*op).(type) {
+				case *ssa.Function:
+					rec(v)
+				case *ssa.MakeClosure:
+					if g, ok := v.Fn.(*ssa.Function); ok {
+						rec(g)
+					}
+				}
+			}
+		})
+	}
+	rec(fn)
+	return out
 }
 
 func valueOf(in ssa.Instruction) ssa.Value {
@@ -794,9 +859,38 @@ func c18GotAtom(c *ssa.Call, sum c18TryRecv) kit.AtomEval {
 	}
 }
 
+// ruleR2 judges the io.EOF returns of Stream.Read and of the helpers of package stream whose
+// results Read returns as its own (return s.dequeueOrEOF()).
 func (cx *c18Ctx) ruleR2() {
+	fns := []*ssa.Function{cx.fnRead}
+	seen := map[*ssa.Function]bool{cx.fnRead: true}
+	for i := 0; i < len(fns) && i < 8; i++ {
+		f := fns[i]
+		for _, ret := range kit.Returns(f) {
+			if ret.Block() == f.Recover || len(ret.Results) == 0 {
+				continue
+			}
+			for _, leaf := range kit.PhiLeaves(kit.ReturnResult(ret, len(ret.Results)-1)) {
+				c, _, ok := kit.ResultOf(leaf)
+				if !ok {
+					continue
+				}
+				if h := kit.CalleeOf(c).Static; h != nil && h.Blocks != nil && c18InPkg(h, "internal/stream") && !seen[h] {
+					seen[h] = true
+					fns = append(fns, h)
+				}
+			}
+		}
+	}
+	n := 0
+	for _, f := range fns {
+		n += cx.judgeEOF(f)
+	}
+	cx.r.Require(n >= 1, "floor: neither Stream.Read nor a helper whose result it returns has a return of io.EOF")
+}
+
+func (cx *c18Ctx) judgeEOF(fn *ssa.Function) int {
 	p, r := cx.p, cx.r
-	fn := cx.fnRead
 	fname := kit.FuncName(fn)
 	drains, blocking := cx.scanChanOps(fn)
 	// helper calls that perform the non-blocking receive on behalf of Read
@@ -825,9 +919,6 @@ func (cx *c18Ctx) ruleR2() {
 		}
 	}
 	r.Count("r2_eof_returns", len(eofs))
-	if !r.Require(len(eofs) >= 1, "floor: Stream.Read has no return of io.EOF") {
-		return
-	}
 	for i, ret := range eofs {
 		// witnesses: receive attempts from which this return is reachable only when the buffer was empty
 		wit := map[ssa.Instruction]bool{}
@@ -872,6 +963,7 @@ func (cx *c18Ctx) ruleR2() {
 			"the return is reached only after a failed non-blocking receive on the read buffer that follows the last blocking wait",
 			why+": data pushed before the FIN/close signal can still be in the buffer when EOF is reported, so it is never delivered")
 	}
+	return len(eofs)
 }
 
 // ---------- R3 ----------
@@ -970,9 +1062,22 @@ func (cx *c18Ctx) ruleR3() {
 	// meshConn.Read: reading continues after the local half-close
 	if read := p.Func("internal/agent", "meshConn", "Read"); r.Require(read != nil, "anchor-unresolved: internal/agent.meshConn.Read") {
 		var reads []ssa.CallInstruction
+		inAgent := func(f *ssa.Function) bool { return c18InPkg(f, "internal/agent") }
 		for _, c := range kit.Calls(read) {
-			if kit.CalleeOf(c).Static == cx.fnRead {
+			s := kit.CalleeOf(c).Static
+			if s == cx.fnRead {
 				reads = append(reads, c)
+				continue
+			}
+			// a helper of the connection that performs the stream read (readNextMessage and the like)
+			if s != nil && inAgent(s) && s != read {
+				for g := range kit.StaticCallClosure(s, inAgent) {
+					for _, c2 := range kit.Calls(g) {
+						if kit.CalleeOf(c2).Static == cx.fnRead {
+							reads = append(reads, c)
+						}
+					}
+				}
 			}
 		}
 		r.Count("r3_stream_read_sites_in_meshconn_read", len(reads))
@@ -992,8 +1097,20 @@ func (cx *c18Ctx) ruleR3() {
 	// meshConn.CloseWrite: after the FIN frame was sent the local half-close is recorded
 	records := map[*ssa.Function]bool{}
 	for _, st := range cx.stateSites() {
-		if st.x == cx.stateVal["StateHalfClosedLocal"] && c18InPkg(st.fn, "internal/stream") {
+		if !c18InPkg(st.fn, "internal/stream") {
+			continue
+		}
+		if st.tab == nil && st.x == cx.stateVal["StateHalfClosedLocal"] {
 			records[kit.TopLevel(st.fn)] = true
+		}
+		if st.tab != nil {
+			for _, trs := range st.tab {
+				for _, tr := range trs {
+					if !tr.same && tr.to == cx.stateVal["StateHalfClosedLocal"] {
+						records[kit.TopLevel(st.fn)] = true
+					}
+				}
+			}
 		}
 	}
 	var recCalls = map[ssa.Instruction]bool{}
@@ -1019,11 +1136,30 @@ func (cx *c18Ctx) ruleR3() {
 			bad := ""
 			if !ok {
 				ok = true
-				for _, ret := range kit.Returns(closeWrite) {
-					if ret.Block() == closeWrite.Recover || !kit.ReturnsNilError(ret) {
+				// successful outcomes: the send's error is nil; a return yields nil either literally or
+				// by returning that error value
+				var sendErr ssa.Value
+				if sc, isCall := s.(*ssa.Call); isCall {
+					sendErr = kit.ErrResultOf(sc)
+				}
+				l := kit.LiveUnder(closeWrite, func(cond ssa.Value) (bool, bool) {
+					if x, tn, isNil := kit.IsErrNilCheck(cond); isNil && sendErr != nil && x == sendErr {
+						return tn, true
+					}
+					return false, false
+				})
+				for _, ret := range l.LiveReturns() {
+					if len(ret.Results) == 0 {
 						continue
 					}
-					if kit.CanReachAvoiding(s, ret, recCalls) {
+					res := kit.ReturnResult(ret, len(ret.Results)-1)
+					succ := kit.IsNilConst(res)
+					for _, leaf := range kit.PhiLeaves(res) {
+						if sendErr != nil && leaf == sendErr {
+							succ = true
+						}
+					}
+					if succ && l.CanReach(s, ret, recCalls) {
 						ok, bad = false, p.Pos(ret.Pos())
 					}
 				}
@@ -1066,6 +1202,157 @@ type c18Site struct {
 	x    int64
 	from int64 // expected current state of a compare-and-swap, -1 when the store is unconditional
 	via  string
+	// a store of the result of a pure transition function next(from) applied to the current state:
+	tab     map[int64][]c18Tr // current state -> possible results
+	tabCall *ssa.Call
+	tabName string
+}
+
+// c18Tr is one outcome of a transition function for one current state.
+type c18Tr struct {
+	to    int64 // target state, or the current state itself when same
+	same  bool
+	okIdx int     // index of the bool result that says "changed", -1 if none
+	ok    kit.Tri // value of that result on this outcome
+}
+
+// transitionTable summarises a pure function f(from StreamState) (to StreamState[, ok bool]) of package
+// stream by evaluating it for each of the five states.
+func (cx *c18Ctx) transitionTable(h *ssa.Function, resIdx int) (map[int64][]c18Tr, bool) {
+	if h == nil || h.Blocks == nil || !c18InPkg(h, "internal/stream") {
+		return nil, false
+	}
+	stateT := cx.fnState.Signature.Results().At(0).Type()
+	var from *ssa.Parameter
+	for _, q := range h.Params {
+		if types.Identical(q.Type(), stateT) {
+			if from != nil {
+				return nil, false
+			}
+			from = q
+		}
+	}
+	res := h.Signature.Results()
+	if from == nil || resIdx >= res.Len() || !types.Identical(res.At(resIdx).Type(), stateT) {
+		return nil, false
+	}
+	okIdx := -1
+	for j := 0; j < res.Len(); j++ {
+		if b, isB := res.At(j).Type().Underlying().(*types.Basic); isB && b.Kind() == types.Bool {
+			okIdx = j
+		}
+	}
+	// no side effects: no calls other than builtins, no stores to non-local memory
+	pure := true
+	kit.Instrs(h, func(in ssa.Instruction) {
+		switch x := in.(type) {
+		case ssa.CallInstruction:
+			if kit.CalleeOf(x).Built == "" {
+				pure = false
+			}
+		case *ssa.Store:
+			if _, ok := x.Addr.(*ssa.Alloc); !ok {
+				pure = false
+			}
+		}
+	})
+	if !pure {
+		return nil, false
+	}
+	tab := map[int64][]c18Tr{}
+	for _, name := range c18StateConsts {
+		sigma := cx.stateVal[name]
+		l := kit.LiveUnder(h, func(cond ssa.Value) (bool, bool) {
+			b, ok := cond.(*ssa.BinOp)
+			if !ok {
+				return false, false
+			}
+			var k int64
+			var isc bool
+			op := b.Op
+			switch {
+			case kit.Unwrap(b.X) == ssa.Value(from):
+				k, isc = kit.ConstInt(b.Y)
+			case kit.Unwrap(b.Y) == ssa.Value(from):
+				k, isc = kit.ConstInt(b.X)
+				op = flipCmp(op)
+			}
+			if !isc {
+				return false, false
+			}
+			ord := 0
+			if sigma < k {
+				ord = -1
+			} else if sigma > k {
+				ord = 1
+			}
+			switch op {
+			case token.EQL, token.NEQ, token.LSS, token.LEQ, token.GTR, token.GEQ:
+				return cmpHolds(op, ord), true
+			}
+			return false, false
+		})
+		for _, ret := range l.LiveReturns() {
+			tr := c18Tr{okIdx: okIdx, ok: kit.TriUnknown}
+			for _, leaf := range kit.PhiLeaves(kit.ReturnResult(ret, resIdx)) {
+				leaf = kit.Unwrap(leaf)
+				if k, isc := kit.ConstInt(leaf); isc {
+					tr.to = k
+				} else if leaf == ssa.Value(from) {
+					tr.to, tr.same = sigma, true
+				} else {
+					return nil, false
+				}
+				if okIdx >= 0 {
+					tr.ok = l.Eval(kit.ReturnResult(ret, okIdx))
+				}
+				tab[sigma] = append(tab[sigma], tr)
+			}
+		}
+	}
+	return tab, true
+}
+
+// sitePairs lists the transitions (from, to) a store site can perform.
+func (cx *c18Ctx) sitePairs(st c18Site) [][2]int64 {
+	var out [][2]int64
+	for _, name := range c18StateConsts {
+		sigma := cx.stateVal[name]
+		switch {
+		case st.tab != nil:
+			for _, tr := range st.tab[sigma] {
+				base := cx.stateAtom(sigma, nil)
+				l := kit.LiveUnder(st.fn, func(cond ssa.Value) (bool, bool) {
+					if tr.okIdx >= 0 && (tr.ok == kit.TriTrue || tr.ok == kit.TriFalse) {
+						os := kit.Origins(cond)
+						all := len(os) > 0
+						for _, o := range os {
+							e, ok := o.(*ssa.Extract)
+							if !ok || e.Tuple != ssa.Value(st.tabCall) || e.Index != tr.okIdx {
+								all = false
+							}
+						}
+						if all {
+							return tr.ok == kit.TriTrue, true
+						}
+					}
+					return base(cond)
+				})
+				if l.CanReachFromEntry(st.call, nil) {
+					out = append(out, [2]int64{sigma, tr.to})
+				}
+			}
+		case st.from >= 0:
+			if st.from == sigma {
+				out = append(out, [2]int64{sigma, st.x})
+			}
+		default:
+			if kit.LiveUnder(st.fn, cx.stateAtom(sigma, nil)).CanReachFromEntry(st.call, nil) {
+				out = append(out, [2]int64{sigma, st.x})
+			}
+		}
+	}
+	return out
 }
 
 // stateSites collects (once) every store to the stream state in the repository.
@@ -1098,8 +1385,24 @@ func (cx *c18Ctx) stateSites() []c18Site {
 			}
 		}
 		if newConst && oldConst {
-			cx.sites = append(cx.sites, c18Site{fn, c, k, from, via})
+			cx.sites = append(cx.sites, c18Site{fn: fn, call: c, x: k, from: from, via: via})
 			return
+		}
+		// the result of a pure transition function applied to the current state
+		if oldV == nil {
+			if tc, idx, isRes := kit.ResultOf(newV); isRes {
+				h := kit.CalleeOf(tc).Static
+				stateArg := false
+				for _, a := range tc.Call.Args {
+					if cx.isStateRead(a) {
+						stateArg = true
+					}
+				}
+				if tab, ok := cx.transitionTable(h, idx); ok && stateArg {
+					cx.sites = append(cx.sites, c18Site{fn: fn, call: c, x: -1, from: -1, via: via, tab: tab, tabCall: tc, tabName: h.Name()})
+					return
+				}
+			}
 		}
 		// parameters handed through by a wrapper: judge the wrapper's call sites
 		ni, oi := parIdx(fn, newV), parIdx(fn, oldV)
@@ -1161,7 +1464,7 @@ func (cx *c18Ctx) ruleR4() {
 			"the stored state is not a constant: the transition cannot be one of the documented ones for every input")
 	}
 	r.Count("r4_state_store_sites", len(sites))
-	r.Require(len(sites) >= 5, "floor: fewer than 5 constant stream-state stores found (have %d)", len(sites))
+	r.Require(len(sites) >= 1, "floor: no store to the stream state found")
 	allowedFrom := map[int64]map[int64]bool{
 		cx.stateVal["StateHalfClosedLocal"]:  {cx.stateVal["StateOpen"]: true},
 		cx.stateVal["StateHalfClosedRemote"]: {cx.stateVal["StateOpen"]: true},
@@ -1175,11 +1478,33 @@ func (cx *c18Ctx) ruleR4() {
 		}
 		seen[s.call] = true
 		base := fmt.Sprintf("%s SetState(%s)", kit.FuncName(s.fn), cx.stateName[s.x])
+		if s.tab != nil {
+			base = fmt.Sprintf("%s SetState(%s(current))", kit.FuncName(s.fn), s.tabName)
+		}
 		ord[base]++
 		key := fmt.Sprintf("%s #%d", base, ord[base])
 		pos := p.Pos(s.call.Pos())
-		switch s.x {
-		case cx.stateVal["StateOpening"]:
+		if s.tab != nil {
+			var all, bad []string
+			for _, pr := range cx.sitePairs(s) {
+				if pr[0] == pr[1] {
+					continue // re-stores the current state
+				}
+				d := cx.stateName[pr[0]] + "->" + cx.stateName[pr[1]]
+				all = append(all, d)
+				okPair := allowedFrom[pr[1]][pr[0]] || (pr[1] == cx.stateVal["StateOpen"] && pr[0] == cx.stateVal["StateOpening"])
+				if !okPair {
+					bad = append(bad, d)
+				}
+			}
+			r.Decide(len(bad) == 0, "C18.R4", key, pos,
+				fmt.Sprintf("the transition function yields only documented transitions here: %v", all),
+				fmt.Sprintf("the transition function can move the stream along %v, which the protocol does not document: the stream leaves the state machine (writes accepted after half-close, or a stream that never reaches Closed)", bad))
+		}
+		switch {
+		case s.tab != nil:
+			// lock region judged below
+		case s.x == cx.stateVal["StateOpening"]:
 			// only the constructor initialises a fresh stream
 			fresh := false
 			if rv := kit.Receiver(s.call); rv != nil {
@@ -1192,7 +1517,7 @@ func (cx *c18Ctx) ruleR4() {
 			r.Decide(fresh, "C18.R4", key, pos, "initial state of a freshly allocated stream",
 				"an existing stream is moved back to Opening, which no documented transition allows: a half-closed or closed stream becomes writable again after Open")
 			continue
-		case cx.stateVal["StateOpen"]:
+		case s.x == cx.stateVal["StateOpen"]:
 			r.Infof("C18.R4", key, pos, "Opening->Open is performed by the manager on streams it has just created; not decided statically")
 			r.Count("r4_open_transitions_listed", 1)
 			continue
@@ -1201,6 +1526,9 @@ func (cx *c18Ctx) ruleR4() {
 		var poss []string
 		okAll := true
 		for _, name := range c18StateConsts {
+			if s.tab != nil {
+				break
+			}
 			sigma := cx.stateVal[name]
 			if s.from >= 0 && s.from != sigma {
 				continue // compare-and-swap: the store happens only from this state
@@ -1215,7 +1543,9 @@ func (cx *c18Ctx) ruleR4() {
 			}
 		}
 		inClose := closeCtx[s.fn] || (s.fn.Parent() != nil && closeCtx[s.fn.Parent()])
-		if s.x == cx.stateVal["StateClosed"] && inClose {
+		if s.tab != nil {
+			// judged above
+		} else if s.x == cx.stateVal["StateClosed"] && inClose {
 			r.OK("C18.R4", key, pos, "unconditional close (any state -> Closed) in the function that closes the stream")
 		} else {
 			r.Decide(okAll, "C18.R4", key, pos,
@@ -1255,6 +1585,15 @@ func (cx *c18Ctx) ruleR4() {
 	// HalfClosedRemote) must also take HalfClosedLocal to Closed — otherwise the second half-close
 	// leaves the stream writable/open
 	type need struct{ from, to string }
+	pairCache := map[ssa.CallInstruction][][2]int64{}
+	pairsOf := func(st c18Site) [][2]int64 {
+		if v, ok := pairCache[st.call]; ok {
+			return v
+		}
+		v := cx.sitePairs(st)
+		pairCache[st.call] = v
+		return v
+	}
 	for _, role := range []struct {
 		marker string
 		needs  []need
@@ -1266,25 +1605,31 @@ func (cx *c18Ctx) ruleR4() {
 		var fns []*ssa.Function
 		seenFn := map[*ssa.Function]bool{}
 		for _, st := range sites {
-			if st.x == cx.stateVal[role.marker] && !seenFn[st.fn] && c18InPkg(st.fn, "internal/stream") {
-				seenFn[st.fn] = true
+			if seenFn[st.fn] || !c18InPkg(st.fn, "internal/stream") {
+				continue
+			}
+			for _, pr := range pairsOf(st) {
+				if pr[1] == cx.stateVal[role.marker] && pr[0] != pr[1] {
+					seenFn[st.fn] = true
+				}
+			}
+			if seenFn[st.fn] {
 				fns = append(fns, st.fn)
 			}
 		}
+		r.Require(len(fns) >= 1, "floor: no function of internal/stream performs the %s transition into %s", role.what, role.marker)
 		for _, fn := range fns {
 			for _, nd := range role.needs {
 				from, to := cx.stateVal[nd.from], cx.stateVal[nd.to]
 				ok := false
 				for _, st := range sites {
-					if st.fn != fn || st.x != to {
+					if st.fn != fn {
 						continue
 					}
-					if st.from >= 0 {
-						ok = ok || st.from == from
-						continue
-					}
-					if kit.LiveUnder(fn, cx.stateAtom(from, nil)).CanReachFromEntry(st.call, nil) {
-						ok = true
+					for _, pr := range pairsOf(st) {
+						if pr[0] == from && pr[1] == to {
+							ok = true
+						}
 					}
 				}
 				r.Decide(ok, "C18.R4", fmt.Sprintf("%s performs %s->%s", kit.FuncName(fn), nd.from, nd.to), p.Pos(fn.Pos()),
@@ -1343,7 +1688,7 @@ func (cx *c18Ctx) ruleR5() {
 		}
 	}
 	r.Count("r5_stream_tables", len(tables))
-	if !r.Require(len(tables) >= 3, "floor: expected the stream tables of stream.Manager, exit.Handler and forward.Handler (have %d)", len(tables)) {
+	if !r.Require(len(tables) >= 1, "floor: no stream table (map keyed by stream id holding *Stream / *ActiveConnection) found in stream.Manager, exit.Handler, forward.Handler") {
 		return
 	}
 	hasIDParam := func(fn *ssa.Function) *ssa.Parameter {
@@ -1432,7 +1777,7 @@ func (cx *c18Ctx) ruleR5() {
 		}
 	}
 	r.Count("r5_addressed_delete_sites", nDel)
-	r.Require(nDel >= 3, "floor: fewer than 3 addressed delete sites on the stream tables (have %d)", nDel)
+	r.Require(nDel >= 1, "floor: no addressed delete site on the stream tables found")
 	// propagate "parameter i is the id of the entry torn down" through direct argument passing
 	pkgs := []string{"internal/stream", "internal/exit", "internal/forward"}
 	var fns []*ssa.Function
@@ -1533,5 +1878,5 @@ func (cx *c18Ctx) ruleR5() {
 		}
 	}
 	r.Count("r5_agent_teardown_call_sites", nAgent)
-	r.Require(nAgent >= 4, "floor: fewer than 4 frame-driven tear-down call sites in internal/agent (have %d)", nAgent)
+	r.Require(nAgent >= 1, "floor: no frame-driven tear-down call site in internal/agent found")
 }
